@@ -54,6 +54,8 @@ def main():
     finally:
         if not a.keep:
             shutil.rmtree(tmp, ignore_errors=True)
+        else:
+            print("KEPT " + tmp)
 
 if __name__ == "__main__":
     sys.exit(main())
